@@ -825,7 +825,7 @@ pub fn run(r: &Report, prop: &str) {
             r.set_rule("all unwrap layouts: indentation unit {2 spaces, 4 spaces, tab} x tag indent T 0..2 units x first inner line indent F in max(T-1,0)..T+2 x 1..K further inner lines each {code at indent 0..F+E units, multi-byte code, blank, nested ready/pending default-strategy element, nested unwrap-block (to depth D)} x {0..2 lines, an earlier removal, or a removed block directly above} before the block, both attribute orders, whitespace-only body lines; expectation per surviving inner line from the dedent rule (shift = max(F-T,0), never left of column T, whitespace only), nested blocks by sequential composition, asserted where inside-out and outside-in composition agree; non-trivial = distinct layouts with a positive shift and a line indented less than F or T, or depth >= 2, or block on line 1");
             let p = match r.tier {
                 Tier::Quick => P12 { units: vec!["  ", "\t"], max_further: vec![2, 2], max_depth: 2, max_extra_indent: 1, mb: false },
-                Tier::Thorough => P12 { units: vec!["  ", "    ", "\t"], max_further: vec![3, 2, 1], max_depth: 3, max_extra_indent: 2, mb: true },
+                Tier::Thorough => P12 { units: vec!["  ", "    ", "\t"], max_further: vec![3, 1, 1], max_depth: 3, max_extra_indent: 2, mb: true },
             };
             let ambiguous = std::sync::atomic::AtomicU64::new(0);
             let counted = explore_choices(
